@@ -669,6 +669,21 @@ def border_scripts(rng, tier):
             if kind == "factory":
                 hs = [["method", "mnew", [], ["set", ["r", names[0]], ["i", 0]]]] + hs
             out.append(dict(tree=["script", ["factory", "makeIt" if kind == "factory" else "-"], ["props"] + names, ["globals"]] + hs, pre=[], kind="border-known-properties"))
+    # `set the <name> = v` / `the <name>` (opcodes 60 / 5f) where <name> is ALSO a declared property, a global, a local or a parameter
+    # of the script (finding F150: opcode 60 took the declared-property branch of opcode 50 and printed `set foo = 5`): plain
+    # names, names of movie properties and names the JavaScript side knows an owner for
+    for kind in ("props", "factory"):
+        for nm in ["foo", "score", "myProp"] + MOVIE_NAMES[:7]:
+            hs = [[("method" if kind == "factory" else "on"), ("mSet" if kind == "factory" else "hSet"), ["v"],
+                   ["set", ["mov", nm], ["i", num()]], ["set", ["r", nm], ["i", num()]], ["set", ["l", "x"], ["mov", nm]], ["set", ["l", "x"], ["r", nm]],
+                   ["set", ["mov", nm], ["b", "add", ["mov", nm], ["r", nm]]]]]
+            if kind == "factory":
+                hs = [["method", "mnew", [], ["set", ["r", nm], ["i", 0]]]] + hs
+            out.append(dict(tree=["script", ["factory", "makeIt" if kind == "factory" else "-"], ["props", nm], ["globals"]] + hs, pre=[], kind="border-the-declared-name"))
+    for nm in ["foo", MOVIE_NAMES[0], MOVIE_NAMES[3]]:
+        out.append(dict(tree=["script", ["factory", "-"], ["props"], ["globals", nm],
+                              ["on", "hG", ["v"], ["set", ["mov", nm], ["i", num()]], ["set", ["g", nm], ["mov", nm]], ["set", ["l", "x"], ["g", nm]]],
+                              ["on", "hL", [nm], ["set", ["mov", nm], ["p", nm]], ["set", ["l", "x"], ["mov", nm]]]], pre=[], kind="border-the-declared-name"))
     # list functions: first argument a symbol (F140: printed as a global) or anything else (must be exact)
     firsts = [["y", "foo"], ["y", "name"], ["l", "lst"], ["g", "gList"], ["p", "v"], ["li", ["i", 1], ["i", 2]], ["pl", ["y", "a"], ["i", 1]]]
     seconds = [["y", "name"], ["i", 3], ["s", S("k")], ["l", "x"]]
@@ -1069,6 +1084,15 @@ def c03_canon_stmt(st):
     if st[0] == "tell":
         return st[:2] + c03_canon(st[2:])
     return st
+
+
+def c03_prop_loop_classes(stmts):
+    """F151: `repeat with <declared property> in l`; F152: `repeat with <declared property> = a [down] to b` (lean: propLoopVarL)"""
+    out = set()
+    for t in walk(stmts):
+        if isinstance(t, list) and len(t) >= 3 and t[0] in ("with", "in") and isinstance(t[1], list) and t[1][:1] == ["r"]:
+            out.add("F151" if t[0] == "in" else "F152")
+    return sorted(out)
 
 
 def c03_has_withlike(stmts):
